@@ -231,7 +231,7 @@ func TestVerifC20PQ(t *testing.T) {
 				return
 			}
 			e.count("random_queue_steps", int64(steps))
-			cs.nontrivial("pq-rand", k)
+			cs.nontrivial("pq-rand", cs.idx)
 		})
 		idx++
 	}
